@@ -50,7 +50,8 @@ func main() {
 
 func coordinator() {
 	r := vrun.Start("C05", "exploration")
-	r.Rule("quick: every documented start x stop combination (Execute x {context cancel, deadline, Cancel}; Start x {context cancel, deadline, Cancel, Stop, Restart}; " +
+	r.Rule("every run starts with 2 directed cases (Execute and supervisor on tree x[h]: the command exits while a background child holds the pipes; context cancel 50 ms after readiness). " +
+		"quick: every documented start x stop combination (Execute x {context cancel, deadline, Cancel}; Start x {context cancel, deadline, Cancel, Stop, Restart}; " +
 		"supervisor x {context cancel, deadline}) on every shape class (single process, chain 1..4, fan 1..6, background children holding the pipes, " +
 		"double-fork daemon inside the group, TERM-ignoring leaves, parent exiting first), shape parameters and an optional setsid()'ed (exempt) branch drawn from " +
 		"Rand(seed, case); the stop instant rotates over {0, 1, 5 ms after the call, at readiness, 10..200 ms after readiness} (deadlines: 1 ms..2 s from context creation). " +
@@ -111,6 +112,7 @@ func coordinator() {
 		r.Require("start_x_stop", int64(len(combos)))
 		r.Require("shape_class", int64(len(shapeClasses)))
 		r.Require("phase_at_stop", 2)
+		r.Require("directed_cases_precondition_met", 2)
 		r.Require("cases_tree_alive_at_stop", int64(r.Pick(25, 600)))
 		r.Require("descendants_judged", int64(r.Pick(60, 1500)))
 		r.Require("ison_checks", int64(r.Pick(20, 400)))
@@ -260,6 +262,9 @@ func judge(r *vrun.Run, cs caseSpec, res *result) {
 	}
 	nontrivial := res.LiveInGroupAtStop > 0 || res.RegisteredAtStop > 0
 	r.Case(canon, nontrivial)
+	if cs.Directed && nontrivial && res.RootExitedAtStop && res.IsOnAtStop {
+		r.Obs("directed_cases_precondition_met", 1)
+	}
 	if r.WantSample() && nontrivial {
 		r.Sample(map[string]any{"case": canon, "phase": res.Phase, "awaited": res.Awaited, "returned_by_itself": res.Returned,
 			"live_in_group_at_stop": res.LiveInGroupAtStop, "descendants_judged": res.DescendantsJudged, "survivors": len(res.Survivors) + len(res.SurvivorsAtG),
